@@ -11,6 +11,12 @@ SCHED = "zksync_consensus_roles::validator::messages::schedule::Schedule"
 AGG = "zksync_consensus_roles::validator::keys::aggregate_signature::AggregateSignature"
 
 
+def _root(f):
+    while f.parent is not None:
+        f = f.parent
+    return f
+
+
 def call_atom(name, suffixes, extra=None):
     """bool atom: a call (possibly behind `?`/map_err adapters) to a callee ending with one of `suffixes`"""
     def m(t):
@@ -28,9 +34,9 @@ def ok_blocks(f):
     return [bi for bi, b in enumerate(f.blocks) for s in b["s"] if s["k"] == "assign" and s["p"]["l"] == 0 and not s["p"].get("pr") and s["r"]["k"] == "agg" and s["r"].get("variant") == "Ok"]
 
 
-def conj_table(ctx, R, key, f, atoms, good, targets, start=0, what="", need_all_targets=True):
+def conj_table(ctx, R, key, f, atoms, good, targets, start=0, what="", need_all_targets=True, atomic=None):
     """targets reachable only on the all-good row (must-not-reach rows are sound), and reachable there."""
-    W = Walker(ctx, f, atoms)
+    W = Walker(ctx, f, atoms, atomic=atomic)
     names, tab = W.table(targets, start=start)
     bad = []
     hit = False
@@ -44,6 +50,36 @@ def conj_table(ctx, R, key, f, atoms, good, targets, start=0, what="", need_all_
            "%s: reachable only when every check passed (%d valuations over %s)" % (what, len(tab), names) if not bad and hit else
            ("%s reachable although a check failed: %s" % (what, bad[:2]) if bad else "%s unreachable even when all checks pass (shape not recognised)" % what), f.loc())
     return not bad and hit
+
+
+def returns_only_after(ctx, f, suffixes):
+    """Every maybe-Ok return of f is either the (mapped) result of a call ending with one of `suffixes`,
+    or is dominated by the success edge of such a call. Returns (ok, number of return sites)."""
+    T = ctx.T(f)
+    cfg = ctx.cfg(f)
+    e = Q.success_edges(ctx, f, lambda b: b[0] == "call" and b[1].endswith(tuple(suffixes)))
+    rets = Q.return_blocks_maybe_ok(ctx, f)
+    ok = bool(rets)
+    for bb, kind in rets:
+        good = False
+        if kind == "call":
+            # the block is the target of a call writing the return place: find that call
+            for bi, b in enumerate(f.blocks):
+                t = b["t"]
+                if t["k"] == "call" and t.get("t") == bb and t["dest"]["l"] == 0 and not t["dest"].get("pr"):
+                    ct = T.call_term(t)
+                    if any(x[0] == "call" and x[1].endswith(tuple(suffixes)) for x in subterms(ct)):
+                        good = True
+        else:
+            for st in f.blocks[bb]["s"]:
+                if st["k"] == "assign" and st["p"]["l"] == 0 and not st["p"].get("pr"):
+                    rt = T.rvalue(st["r"])
+                    if any(x[0] == "call" and x[1].endswith(tuple(suffixes)) for x in subterms(rt)) and not (rt[0] == "agg" and rt[2] == "Ok"):
+                        good = True
+        if not good:
+            good = bool(e) and cfg.must_pass(bb, e)
+        ok = ok and good
+    return ok, len(rets)
 
 
 def weight_cmp_atom():
@@ -83,20 +119,8 @@ def rule_commit_qc_verify(ctx):
     vm = [c["bb"] for c in T.calls() if c["q"] == AGG + "::verify_messages"]
     ctx.floor(R, "verify_messages sites", len(vm), 1)
     conj_table(ctx, R, "guards of the signature check", f, atoms, [{True}, {"="}, {"=", ">"}], {"sigcheck": vm}, what="CommitQC signature check")
-    rt = T.local(0)
-    ok = any(x[0] == "call" and x[1] == AGG + "::verify_messages" for x in subterms(rt)) or T.defs.get(0) and len(T.defs[0]) > 1
-    # every non-error definition of the return place is the (mapped) result of verify_messages
-    defs_ok = True
-    for bi, b in enumerate(f.blocks):
-        t = b["t"]
-        if t["k"] == "call" and t["dest"]["l"] == 0 and not t["dest"].get("pr"):
-            ct = T.call_term(t)
-            if ct[1] != "std::ops::FromResidual::from_residual":
-                defs_ok = defs_ok and any(x[0] == "call" and x[1] == AGG + "::verify_messages" for x in subterms(ct))
-        for s in b["s"]:
-            if s["k"] == "assign" and s["p"]["l"] == 0 and not s["p"].get("pr") and s["r"]["k"] == "agg" and s["r"].get("variant") == "Ok":
-                defs_ok = False
-    ctx.ob(R, "returned result", defs_ok, "the only non-error return is the result of verify_messages" if defs_ok else "CommitQC::verify can return Ok without returning the signature check's result", f.loc())
+    defs_ok, nret = returns_only_after(ctx, f, [AGG + "::verify_messages"])
+    ctx.ob(R, "returned result", defs_ok, "every non-error return (%d) is the result of, or dominated by the success of, verify_messages" % nret if defs_ok else "CommitQC::verify can return Ok without the aggregate signature check having succeeded", f.loc())
     # C04.6 the right things are compared
     ws = [T.args_of(c) for c in T.calls() if c["q"] == SIGNERS + "::weight"]
     qs = [T.args_of(c) for c in T.calls() if c["q"] == SCHED + "::quorum_threshold"]
@@ -105,8 +129,26 @@ def rule_commit_qc_verify(ctx):
            "weight/threshold operands: %s vs %s" % ([show(x) for a in ws for x in a], [show(x) for a in qs for x in a]), f.loc())
     keys = [T.args_of(c) for c in T.calls() if c["q"] == SCHED + "::keys"]
     okk = bool(keys) and bool(qs) and all(a[0] == qs[0][0] for a in keys)
-    clos = [x for c in T.calls() if c["q"] == AGG + "::verify_messages" for x in subterms(T.args_of(c)[1]) if x[0] == "closure"]
-    okc = any(any(y[0] == "param" and y[2] == "self" for y in subterms(cl)) for cl in clos)
+    # the (message, key) pairs are selected by this QC's signer bitmap and carry this QC's message
+    fam = [f] + [g for g in ctx.F.fns if g.parent is not None and _root(g) is f]
+    idx_ok = msg_ok = False
+    for g in fam:
+        Tg = ctx.T(g)
+        for c in Tg.calls():
+            if c["q"] == "std::ops::Index::index" and chain(Tg.args_of(c)[0])[1][-2:] == ["signers", "0"]:
+                idx_ok = True
+        for b in g.blocks:
+            for st in b["s"]:
+                if st["k"] == "assign" and st["r"]["k"] in ("ref", "use", "copyderef"):
+                    tt = Tg.rvalue(st["r"])
+                    if chain(tt)[1][-1:] == ["message"]:
+                        msg_ok = True
+            t = b["t"]
+            if t["k"] == "call":
+                for a in t["args"]:
+                    if chain(Tg.operand(a))[1][-1:] == ["message"]:
+                        msg_ok = True
+    okc = idx_ok and msg_ok
     ctx.ob("C04.6", "CommitQC signature operands", okk and okc, "the verified (message, key) pairs enumerate the same schedule's keys filtered by self.signers and pair them with self.message" if okk and okc else
            "the key set handed to the signature check is not derived from the same schedule / this QC's signers", f.loc())
 
@@ -133,7 +175,7 @@ def rule_timeout_qc_verify(ctx):
              Atom("signers empty", "bool", a_empty, [True, False]), Atom("disjoint from union", "bool", a_disjoint, [True, False]),
              call_atom("entry.verify", ["ReplicaTimeout::verify"])]
     upd = [c["bb"] for c in T.calls() if c["q"].endswith("BitOrAssign::bitor_assign")]
-    head = loop_head(ctx, f)
+    head = loop_head(ctx, f, target=upd) if upd else None
     ctx.floor(R, "union update sites", len(upd), 1)
     ctx.ob(R, "entry loop", head is not None, "loop over the (message, signers) entries found", f.loc())
     if head is not None and upd:
@@ -143,12 +185,13 @@ def rule_timeout_qc_verify(ctx):
     ctx.floor(R, "verify_messages sites", len(vm), 1)
     conj_table(ctx, R, "guards of the signature check", f, atoms2, [{True}, {"=", ">"}], {"sigcheck": vm}, what="TimeoutQC signature check")
     # the union that is weighed is the accumulated one
-    ws = [T.args_of(c) for c in T.calls() if c["q"] == SIGNERS + "::weight"]
-    bo = [T.args_of(c) for c in T.calls() if c["q"].endswith("BitOrAssign::bitor_assign")]
-    ok = bool(ws) and bool(bo) and all(a[0] == bo[0][0] for a in ws)
-    ctx.ob("C04.6", "TimeoutQC weight operand", ok, "the weight compared with the quorum is that of the running union of the entries' signer sets" if ok else "weight operand %s is not the accumulated union %s" % ([show(a[0]) for a in ws], [show(a[0]) for a in bo]), f.loc())
-    okd = not ok_blocks(f)
-    ctx.ob(R, "returned result", okd, "no unconditional Ok: the return value is the signature check's result" if okd else "TimeoutQC::verify has an Ok return bypassing the signature check", f.loc())
+    flow = Q.LocalFlow(f)
+    wl = [flow._local_op(c["t"]["args"][0]) for c in T.calls() if c["q"] == SIGNERS + "::weight"]
+    bl = [flow._root_borrow(flow._local_op(c["t"]["args"][0])) for c in T.calls() if c["q"].endswith("BitOrAssign::bitor_assign")]
+    ok = bool(wl) and bool(bl) and all(any(flow.derives_from_local(w, b) for b in bl if b is not None) for w in wl if w is not None)
+    ctx.ob("C04.6", "TimeoutQC weight operand", ok, "the weight compared with the quorum is that of the running union of the entries' signer sets (derives-from flow)" if ok else "the weighed signer set does not derive from the accumulated union of the entries' signer sets", f.loc())
+    okd, nret = returns_only_after(ctx, f, [AGG + "::verify_messages"])
+    ctx.ob(R, "returned result", okd, "every non-error return (%d) is the result of, or dominated by the success of, verify_messages" % nret if okd else "TimeoutQC::verify can return Ok without the aggregate signature check having succeeded", f.loc())
 
 
 def add_table(ctx, R, q, dup_atom, consistent, verify_suffix):
@@ -158,12 +201,20 @@ def add_table(ctx, R, q, dup_atom, consistent, verify_suffix):
     def a_member(t):
         return t[0] == "call" and t[1] == SCHED + "::index"
     atoms = [Atom("signer in committee", "opt", a_member, ["None", "Some"]), dup_atom, call_atom("signature", ["Signed::verify"]), consistent, call_atom("message valid", [verify_suffix])]
+
+    def bitmap_scan_helper(qname):
+        """an extracted helper whose body reads signer bitmaps by index (the duplicate-signer scan)"""
+        h = getattr(ctx.F, "helpers", {}).get(qname)
+        if h is None or h.locals[0].s != "bool":
+            return False
+        fam = [h] + [g for g in ctx.F.fns if g.parent is not None and _root(g) is h]
+        return any(c["q"] == "std::ops::Index::index" and any(h2.ty(i).s.startswith("bit_vec::BitVec") for i in c["t"]["f"].get("ga", [])) for h2 in fam for c in ctx.T(h2).calls())
     muts = [c["bb"] for c in T.calls() if c["q"] == "bit_vec::BitVec::set" or c["q"] == AGG + "::add"]
     name = q.split("::")[-2]
     ctx.floor(R, "mutation sites in %s::add" % name, len(muts), 2)
     good = [{"Some"}, {False}, {True}, {"="}, {True}]
     conj_table(ctx, R, "%s::add guards" % name, f, atoms, good, {"set_bit": [c["bb"] for c in T.calls() if c["q"] == "bit_vec::BitVec::set"], "add_sig": [c["bb"] for c in T.calls() if c["q"] == AGG + "::add"]},
-               what="%s::add mutations (signer bit, aggregate signature)" % name)
+               what="%s::add mutations (signer bit, aggregate signature)" % name, atomic=bitmap_scan_helper)
     # the bit that is set is the signer's index; the signature added is the message's
     idx_ok = any(T.args_of(c)[1] != ("const", 0) and any(x[0] == "call" and x[1] == SCHED + "::index" for x in subterms(T.args_of(c)[1])) for c in T.calls() if c["q"] == "bit_vec::BitVec::set")
     ctx.ob(R, "%s::add bit index" % name, idx_ok, "signers.set(index(msg.key), true)" if idx_ok else "the bit set is not the signer's schedule index", f.loc())
@@ -176,6 +227,8 @@ def rule_add(ctx):
     ctx.rule(R, "incremental assembly (sibling tables): in CommitQC::add and TimeoutQC::add the two mutations are reachable only for a committee member whose bit is not yet set (in any group), with a valid signature, a message consistent with the certificate and a valid message")
 
     def a_dup_commit(t):
+        if t[0] == "call" and t[1].startswith("inlined:"):
+            return True
         return t[0] == "call" and t[1] == "std::ops::Index::index" and chain(t[2][0])[1][-2:] == ["signers", "0"]
 
     def m_cons_commit(a, b):
@@ -190,6 +243,8 @@ def rule_add(ctx):
               Atom("msg == qc.message", "cmp", m_cons_commit, ["=", "!="]), "ReplicaCommit::verify")
 
     def a_dup_timeout(t):
+        if t[0] == "call" and t[1].startswith("inlined:"):
+            return True   # only offered for helpers accepted by bitmap_scan_helper
         return t[0] == "call" and t[1] == "std::iter::Iterator::any" and any(x[0] == "call" and x[1].endswith("BTreeMap::values") for x in subterms(t))
 
     def m_cons_timeout(a, b):
@@ -212,7 +267,10 @@ def rule_add(ctx):
         if g is not None:
             rt = Inliner(ctx).ret_term(g)
             okc = rt is not None and any(x[0] == "call" and x[1] == "std::ops::Index::index" for x in subterms(rt))
-    ctx.ob(R, "TimeoutQC duplicate test", okc, "any(|s| s.0[i]) over map.values(): the signer must be absent from every group" if okc else "duplicate test closure not recognised", f.loc())
+    if not okc:
+        # the scan may have been extracted into a helper (inlined here): it must iterate map.values() and index a bitmap
+        okc = any(c["q"].endswith("BTreeMap::values") for c in T.calls()) and any(c["q"] == "std::ops::Index::index" and any(f.ty(i).s.startswith("bit_vec::BitVec") for i in c["t"]["f"].get("ga", [])) for c in T.calls())
+    ctx.ob(R, "TimeoutQC duplicate test", okc, "the duplicate test scans map.values() for the signer's bit: the signer must be absent from every group" if okc else "duplicate test not recognised", f.loc())
 
 
 def rule_final_block(ctx):
@@ -234,7 +292,8 @@ def rule_final_block(ctx):
     jv = [c["bb"] for c in T.calls() if c["q"].endswith("CommitQC::verify")]
     ctx.floor(R, "justification.verify sites", len(jv), 1)
     conj_table(ctx, R, "hash gate", f, [Atom("hash(payload)==header.payload", "cmp", m, ["=", "!="])], [{"="}], {"justification": jv}, what="justification verification")
-    ctx.ob(R, "returned result", not ok_blocks(f), "the return value is the justification check's result" if not ok_blocks(f) else "FinalBlock::verify has an Ok return bypassing the justification check", f.loc())
+    okr, nret = returns_only_after(ctx, f, ["CommitQC::verify"])
+    ctx.ob(R, "returned result", okr, "every non-error return (%d) is the result of, or dominated by the success of, justification.verify" % nret if okr else "FinalBlock::verify can return Ok without the justification having been verified", f.loc())
     a = [T.args_of(c) for c in T.calls() if c["q"].endswith("CommitQC::verify")]
     ok = bool(a) and field_path(a[0][0])[1] == ["justification"] and all(x[0] == "param" for x in a[0][1:])
     ctx.ob(R, "arguments", ok, "self.justification.verify(genesis, epoch, schedule) with the caller's arguments" if ok else "justification.verify arguments: %s" % [show(x) for x in (a[0] if a else [])], f.loc())
